@@ -88,6 +88,10 @@ def visit (cfg : GenCfg) : Nat → Val → G String
     | .str _ => G.fail (.attribute "str.children")
     | .list _ => G.fail (.attribute "list.children")
     | .node c _ _ =>
+      -- `_visit_operand`: an expression alone between delimiters the construct provides itself;
+      -- only a statement expression needs parentheses of its own there
+      let vo (x : Val) : G String := do
+        if x.isCls .Compound then pure ("(" ++ (← visit cfg fuel x) ++ ")") else visit cfg fuel x
       match c with
       | .Constant => do asStr (← fld n "value") "Constant.value"
       | .ID => do asStr (← fld n "name") "ID.name"
@@ -99,7 +103,7 @@ def visit (cfg : GenCfg) : Nat → Val → G String
         else pure "#pragma"
       | .ArrayRef => do
         let a ← parenUnlessSimple cfg fuel (← fld n "name")
-        pure (a ++ "[" ++ (← visit cfg fuel (← fld n "subscript")) ++ "]")
+        pure (a ++ "[" ++ (← vo (← fld n "subscript")) ++ "]")
       | .StructRef => do
         let nm ← fld n "name"
         let a ← parenUnlessSimple cfg fuel nm
@@ -114,7 +118,7 @@ def visit (cfg : GenCfg) : Nat → Val → G String
       | .UnaryOp => do
         let op ← asStr (← fld n "op") "UnaryOp.op"
         let e ← fld n "expr"
-        if op == "sizeof" then pure ("sizeof(" ++ (← visit cfg fuel e) ++ ")")
+        if op == "sizeof" then pure ("sizeof(" ++ (← vo e) ++ ")")
         else if op == "p++" then pure ((← parenUnlessSimple cfg fuel e) ++ "++")
         else if op == "p--" then pure ((← parenUnlessSimple cfg fuel e) ++ "--")
         else pure (op ++ (← parenUnlessSimple cfg fuel e))
@@ -213,7 +217,7 @@ def visit (cfg : GenCfg) : Nat → Val → G String
         pure (", ".intercalate (← ps.mapM (visit cfg fuel)))
       | .Return => do
         let e ← fld n "expr"
-        if e.truthy then pure ("return " ++ (← visit cfg fuel e) ++ ";") else pure "return;"
+        if e.truthy then pure ("return " ++ (← vo e) ++ ";") else pure "return;"
       | .Break => pure "break;"
       | .Continue => pure "continue;"
       | .TernaryOp => do
@@ -223,7 +227,7 @@ def visit (cfg : GenCfg) : Nat → Val → G String
         pure ("(" ++ c ++ ") ? (" ++ t ++ ") : (" ++ f ++ ")")
       | .If => do
         let c ← fld n "cond"
-        let cs ← if c.truthy then visit cfg fuel c else pure ""
+        let cs ← if c.truthy then vo c else pure ""
         let s := "if (" ++ cs ++ ")\n"
         let t ← generateStmt cfg fuel (← fld n "iftrue") true
         let f ← fld n "iffalse"
@@ -236,21 +240,21 @@ def visit (cfg : GenCfg) : Nat → Val → G String
         let i ← fld n "init"
         let c ← fld n "cond"
         let x ← fld n "next"
-        let is ← if i.truthy then visit cfg fuel i else pure ""
-        let cs ← if c.truthy then do pure (" " ++ (← visit cfg fuel c)) else pure ""
-        let xs ← if x.truthy then do pure (" " ++ (← visit cfg fuel x)) else pure ""
+        let is ← if i.truthy then vo i else pure ""
+        let cs ← if c.truthy then do pure (" " ++ (← vo c)) else pure ""
+        let xs ← if x.truthy then do pure (" " ++ (← vo x)) else pure ""
         let body ← generateStmt cfg fuel (← fld n "stmt") true
         pure ("for (" ++ is ++ ";" ++ cs ++ ";" ++ xs ++ ")\n" ++ body)
       | .While => do
         let c ← fld n "cond"
-        let cs ← if c.truthy then visit cfg fuel c else pure ""
+        let cs ← if c.truthy then vo c else pure ""
         let body ← generateStmt cfg fuel (← fld n "stmt") true
         pure ("while (" ++ cs ++ ")\n" ++ body)
       | .DoWhile => do
         let body ← generateStmt cfg fuel (← fld n "stmt") true
         let ind ← makeIndent
         let c ← fld n "cond"
-        let cs ← if c.truthy then visit cfg fuel c else pure ""
+        let cs ← if c.truthy then vo c else pure ""
         pure ("do\n" ++ body ++ ind ++ "while (" ++ cs ++ ");")
       | .StaticAssert => do
         let c ← visitConstantExpr cfg fuel (← fld n "cond")
@@ -258,7 +262,7 @@ def visit (cfg : GenCfg) : Nat → Val → G String
         if m.truthy then pure ("_Static_assert(" ++ c ++ "," ++ (← visit cfg fuel m) ++ ")")
         else pure ("_Static_assert(" ++ c ++ ")")
       | .Switch => do
-        let c ← visit cfg fuel (← fld n "cond")
+        let c ← vo (← fld n "cond")
         let body ← generateStmt cfg fuel (← fld n "stmt") true
         pure ("switch (" ++ c ++ ")\n" ++ body)
       | .Case => do
